@@ -43,17 +43,16 @@ the property is silent (non-canonical trailing bits, surplus padding, …) -/
 inductive SecretSpec | bytes (b : Bytes) | reject | silent
   deriving Repr, DecidableEq
 
-def isPropWhite (c : UInt8) : Bool := c = 32 || c = 9 || c = 10 || c = 13 || c = 11 || c = 12
-
-/-- decide the property's verdict for a text: strip white space at both ends (the property's set: the
-ASCII white space), split into data characters and trailing '=' -/
+/-- decide the property's verdict for a text: strip white space at both ends (Unicode white space, as
+`strings.TrimSpace` understands it — a Spec choice: the property says "surrounded by white space"),
+split into data characters and trailing '=' -/
 def secretSpec (text : Bytes) : SecretSpec :=
-  let t := ((text.dropWhile isPropWhite).reverse.dropWhile isPropWhite).reverse
+  let t := Std.trimSpace text
   let data := (t.reverse.dropWhile (· = 61)).reverse
   let npad := t.length - data.length
   if data.any (fun c => (charVal c).isNone) then
     -- a character outside A-Z a-z 2-7 (incl. '=' in the middle, inner white space, non-ASCII): rejected
-    if data.any (fun c => c.toNat ≥ 128) ∧ (text.any (fun c => c.toNat ≥ 128) ∧ t ≠ text) then .silent else .reject
+    .reject
   else
     let r := data.length % 8
     if r = 1 ∨ r = 3 ∨ r = 6 then .reject
